@@ -217,6 +217,22 @@ pub const LANGS: &[Lang] = &[
         markdown: false,
         line_comment_eats_newline: &[],
     },
+    // the same grammar with its open tag in upper case (`<?PHP`, as valid as `<?php`): the file never spells `<?php`
+    Lang {
+        id: "php_upper",
+        line: &["//", "#"],
+        block: Some(("/*", "*/")),
+        nests: false,
+        star: true,
+        trailing_line: true,
+        code: &["$a{n} = {n};", "function f{n}() { return 1; }", "class K{n} { public $x = 1; }", "echo 'x{n}';"],
+        inline_code: &["$b{n} = 2;"],
+        decoys: &["$d{n} = '{}';", "$e{n} = \"{}\";", "$c{n} = '// {}';", "$h{n} = '# {}';", "?>\n<p>{}</p><!-- {} -->\n<?PHP"],
+        header: "<?PHP\n",
+        footer: "",
+        markdown: false,
+        line_comment_eats_newline: &[],
+    },
     Lang {
         id: "python",
         line: &["#", "##", "#!"],
@@ -396,7 +412,7 @@ pub const SUFFIXES: &[(&str, &str)] = &[
     ("md", "markdown"),
     ("mk", "make"),
     ("php", "php"),
-    ("phtml", "php"),
+    ("phtml", "php_upper"),
     ("py", "python"),
     ("pyi", "python"),
     ("rb", "ruby"),
@@ -441,7 +457,7 @@ pub fn ts_language(id: &str) -> Option<Language> {
         "kotlin" => tree_sitter_kotlin_ng::LANGUAGE.into(),
         "make" => tree_sitter_make::LANGUAGE.into(),
         "markdown" => tree_sitter_md::LANGUAGE.into(),
-        "php" => tree_sitter_php::LANGUAGE_PHP.into(),
+        "php" | "php_upper" => tree_sitter_php::LANGUAGE_PHP.into(),
         "python" => tree_sitter_python::LANGUAGE.into(),
         "ruby" => tree_sitter_ruby::LANGUAGE.into(),
         "rust" => tree_sitter_rust::LANGUAGE.into(),
